@@ -1273,3 +1273,65 @@ func c18ASTChildren(c *Ctx, r *Report) {
 	r.OK("R18.14", "tree walks of the interpreter", "", fmt.Sprintf("%d recursive walks over AST nodes, %d constant-index child reads in them", nwalk, n))
 	r.Floor("R18.14", "recursive walks over AST nodes", nwalk, 5)
 }
+
+// c18NoAssertOnText (R18.15): what the program text or the data decides is
+// not asserted.
+func c18NoAssertOnText(c *Ctx, r *Report) {
+	r.Rule("R18.15", "no assertion on what the text decides: outside the sub-entry-points, the condition handed to lib.InternalCodingErrorIf never derives from the success flag or error of parsing a string (lib.Try…FromString, strconv.Parse…, strconv.Atoi, regexp.Compile, time.Parse…): whether a piece of program text or data parses is decided by whoever wrote it, and an 'internal coding error' exit for it is a crash with a nicer name (a numeric literal such as 089 or 1e309 that the lexer accepts)")
+	n := 0
+	for _, fn := range c.ModuleFunctions() {
+		if fn.Blocks == nil {
+			continue
+		}
+		pk := ""
+		if fn.Pkg != nil {
+			pk = fn.Pkg.Pkg.Path()
+		}
+		if subEntrypointPkg(pk) {
+			continue
+		}
+		idx := 0
+		for _, b := range fn.Blocks {
+			for _, in := range b.Instrs {
+				call, ok := in.(*ssa.Call)
+				if !ok || !strings.HasSuffix(CalleeName(&call.Call), "InternalCodingErrorIf") || len(call.Call.Args) != 1 {
+					continue
+				}
+				n++
+				src := ""
+				var walk func(v ssa.Value, depth int)
+				walk = func(v ssa.Value, depth int) {
+					if depth > 5 || src != "" {
+						return
+					}
+					switch x := v.(type) {
+					case *ssa.UnOp:
+						walk(x.X, depth+1)
+					case *ssa.BinOp:
+						walk(x.X, depth+1)
+						walk(x.Y, depth+1)
+					case *ssa.Phi:
+						for _, e := range x.Edges {
+							walk(e, depth+1)
+						}
+					case *ssa.Extract:
+						if pc, ok := x.Tuple.(*ssa.Call); ok && x.Index > 0 {
+							cn := CalleeName(&pc.Call)
+							if (strings.HasPrefix(cn, "pkg/lib.Try") && strings.Contains(cn, "FromString")) || strings.HasPrefix(cn, "strconv.Parse") || cn == "strconv.Atoi" || cn == "regexp.Compile" || strings.HasPrefix(cn, "time.Parse") {
+								src = cn
+							}
+						}
+					}
+				}
+				walk(call.Call.Args[0], 0)
+				if src != "" {
+					idx++
+					r.Fail("R18.15", fmt.Sprintf("%s: assertion on a parse result #%d", SSAName(fn), idx), c.Rel(call.Pos()),
+						fmt.Sprintf("%s asserts (InternalCodingErrorIf) on the outcome of %s: text that does not parse ends the process with 'Internal coding error detected' instead of an error the user can act on", SSAName(fn), src))
+				}
+			}
+		}
+	}
+	r.OK("R18.15", "assertions examined", "", fmt.Sprintf("%d InternalCodingErrorIf calls", n))
+	r.Floor("R18.15", "InternalCodingErrorIf calls", n, 100)
+}
